@@ -423,7 +423,7 @@ def main(tier):
     ctx.close()
 
     # (b)+(c) Hypothesis
-    n = 16000 if tier == "quick" else 600000
+    n = 16000 if tier == "quick" else 300000
     failures = hyp.run("c16", ev, tier, n)
     # deterministic failures: dedupe wordlit separately
     for f in det_failures:
